@@ -5,6 +5,8 @@ claim("C02", "must-pass-through on the session constructor's CFG (constant-time 
       "Every path returning a session passes both HMAC comparisons with the right operands; handshake helpers validate tag/status/error on every success path. Exhaustive over the constructor's and helpers' paths.", "DESIGN.md §4 C02")
 claim("C04", "must-pass-through / edge-removal reachability on the accept path and the two decoders",
       "Every path on which a reply's completion code is used has tested the authenticated flag and session ID; the v2.0 session decoder's success exits are behind the signature comparison with whole operands; the AES layer's behind pad validation.", "DESIGN.md §4 C04")
+claim("C05", "abstract interpretation of lengths (linear forms + Fourier-Motzkin entailment, inferred loop invariants) over all decoders and reply-handling driver code",
+      "Every index/slice (against len, not cap)/make/division/contract precondition reachable from the 36 decode entry points and the driver functions is entailed on every path for every input length and content; every loop matches a termination template; literal-nil dereferences, explicit panics and unguarded type assertions are obligations. Bounded only by an inlining depth and a step budget that fail loudly.", "DESIGN.md §3 E1, §4 C05")
 claim("C09", "who-writes rule + CFG path counting on the in-session send closure",
       "Every store to the session sequence counter in the module is the closure's +1; on every closure path exactly one increment precedes the Send and the serialised Sequence is that value; session-less wrappers carry no ID/sequence.", "DESIGN.md §4 C09")
 claim("C10", "predicate true-set (exact partition evaluation) + closure path classification + fresh/dirty typestate across backoff.Retry",
@@ -27,7 +29,6 @@ claim("C20", "initialiser tables, exact predicate true-sets, normal forms / stru
       "PARTIAL: decides the table/predicate/bit-copy clauses only (BCD-plus table, decoder table, entity-instance ranges, time-unit table, zero/sign-extension parsers, bcd.Decode normal form, checksum shape); the arithmetic conversions are listed as not decided in the evidence.", "DESIGN.md §4 C20")
 for p, why in {
     "C03": "rule set not built yet (engines E2/E4)",
-    "C05": "rule set not built yet (engine E1)",
     "C06": "rule set not built yet (engine E2)",
     "C07": "rule set not built yet (engine E2)",
     "C08": "rule set not built yet (engine E2)",
